@@ -418,15 +418,16 @@ func (m *Uint64Map) EachItem(f func(id uint64, tagged []Tagged, goroutine int) e
 			m.fillIDsAndTagged(bucket, &ids)
 			if len(ids.IDs) > 0 {
 				start := 0
-				for i := 1; i < len(ids.IDs); i++ {
+				for i := 1; i < len(ids.IDs) && err == nil; i++ {
 					if ids.IDs[i] != ids.IDs[start] {
-						if err = f(ids.IDs[start], ids.Tags[start:i], goroutine); err != nil {
-							break
-						}
+						err = f(ids.IDs[start], ids.Tags[start:i], goroutine)
 						start = i
 					}
 				}
-				if err = f(ids.IDs[start], ids.Tags[start:], goroutine); err != nil {
+				if err == nil {
+					err = f(ids.IDs[start], ids.Tags[start:], goroutine)
+				}
+				if err != nil {
 					break
 				}
 			}
@@ -444,11 +445,12 @@ func (m *Uint64Map) EachItem(f func(id uint64, tagged []Tagged, goroutine int) e
 	for i := 0; i < goroutines; i++ {
 		go readBuckets(i)
 	}
+dispatch:
 	for bucket := 0; bucket < m.Layout.SentinelBucket(); bucket++ {
 		select {
 		case buckets <- bucket:
 		case <-cancel:
-			break
+			break dispatch
 		}
 	}
 	close(buckets)
